@@ -380,6 +380,7 @@ func nrules(p *load.Program, f *fsm, s *oblig.Set) {
 	// N4: tail behaviour over {eof flag, last token kind}
 	tailRule(p, f, s, next, fld, lexT, pos)
 	newLexerRule(p, f, s, fld)
+	freshRule(p, s)
 }
 
 // newLexerRule (N6): the lexer scans exactly the text it was given: both the
